@@ -1,8 +1,10 @@
 """C07 — protocol version negotiation over the whole configuration matrix (DESIGN.md section 6, C07; pattern P1).
 
 TLC enumerates the matrix (spec/NegotiateDefs.tla: requested version x transport x HTTP options x advertised
-subset x discover availability), evaluates the design (Holds(c, Expected(c)); failures are *leads*), and exports
-the cells. The Go harness connects a real mcp.Client to a real mcp.Server for every cell (in-memory, io pipes,
+subset x discover availability and the shape its absence takes (JSON-RPC -32601 / -32022, or a plain HTTP 404 / 400 /
+405 / 501 with a non-JSON-RPC body from a front end) x the version the peer answers initialize with (honest, each
+SDK version, unknown older / between / newer / garbage)), evaluates the design (Holds(c, Expected(c)); failures are
+*leads*), and exports the cells (quick: CoreCaseSet, thorough: the whole product). The Go harness connects a real mcp.Client to a real mcp.Server for every cell (in-memory, io pipes,
 SSE handler, streamable HTTP handler stateful / stateful without session ids / stateless, optionally after an earlier
 connection to the same Server through a second streamable endpoint; HTTP through an in-process RoundTripper, every scenario
 in a testing/synctest bubble), then lists and calls tools. The TLA+ monitor NegotiateMon judges the recorded
@@ -31,7 +33,9 @@ def cell_of(e):
     if c.get("prior", "none") != "none":
         tr += "+prior=" + c["prior"]
     if c["disc"] != "native":
-        tr += "+disc=" + c["disc"]
+        tr += "+disc=" + c["disc"] + ("(%s)" % c["dbody"] if c.get("dbody", "none") != "none" else "")
+    if c.get("ians", "honest") != "honest":
+        tr += "+ians=" + c["ians"]
     return "cell=%s|%s|%s" % (c["req"], tr, adv_code(c))
 
 
@@ -45,10 +49,17 @@ def sig_of(inv, e):
     c, o = e["c"], e["o"]
     via = "initialize" if o["sentInit"] else ("discover" if o["nDisc"] else "none")
     trc = "wrapped" if c["wrap"] else c["tr"]
-    if c["disc"] != "native":
-        trc += "+disc=" + c["disc"]
+    # the shape of "discovery unavailable" belongs to the class where discovery decided: in Fallback, and for sessions
+    # that were not made through initialize; HTTP-level answers form one class (status and body are in the description)
+    if c["disc"] != "native" and (inv == "Fallback" or not o["sentInit"]):
+        trc += "+disc=" + ("http" if c["disc"].startswith("http") else c["disc"])
     if c.get("prior", "none") != "none":
         trc += "+prior=" + c["prior"]
+    if c.get("ians", "honest") != "honest" and o["sentInit"]:
+        # how the peer answered the initialize that was sent: a legacy version of its own choice, 2026-07-28, or a
+        # string unknown to the SDK (the concrete string is in the description)
+        a = c["ians"]
+        trc += "+ians=" + (a if a in MODERN else "legacy" if a in V else "unknown")
     ver = o["version"]
     if inv in ("Sound", "NoModernOverLegacyTransport"):
         if ver not in V:
@@ -59,6 +70,8 @@ def sig_of(inv, e):
             what = "not-advertised(%s)" % ("modern" if ver in MODERN else "legacy")
         elif ver in MODERN and c["disc"] != "native":
             what = "modern-without-discover"
+        elif c.get("ians", "honest") not in ("honest", ver):
+            what = "not-what-the-peer-answered"
         else:
             what = "not-mutual"
     elif inv == "Exact":
@@ -85,7 +98,14 @@ def run(tier, seed, replay):
         "wrapper around the in-memory / io server transport; the SSE and streamable handlers build their own transports",
         "unknown version strings are concretised from seeded pools (older than all, between known ones, just above and "
         "far above 2026-07-28); 'discovery unavailable' is simulated by a server receiving middleware answering "
-        "server/discover with -32601 or -32022(legacy list)",
+        "server/discover with -32601 or -32022(legacy list), or by an http.Handler front in the in-process RoundTripper "
+        "path that answers the server/discover POST - and nothing else - with 404/400/405/501 and a text/plain, empty, "
+        "HTML or non-JSON-RPC JSON body (streamable stateful / stateless endpoints and the SSE message endpoint)",
+        "a peer that answers initialize with another version than the SDK server would is an SDK server whose receiving "
+        "middleware rewrites InitializeResult.ProtocolVersion (everything else it does is the SDK server's behaviour); such a "
+        "peer is taken to support exactly the revision it answers with through initialize",
+        "sentInit (clause Fallback) is observed on the wire: a tap on the client's end of the in-memory / io pipe, the POST "
+        "bodies arriving at the HTTP endpoint; what the client merely issued into a dead connection does not count",
         "client and server run the same SDK build, so ClientSupported = the SDK's version list",
         "shared-server cells: one Server behind two streamable handlers; a default client connects, lists and closes on "
         "the other endpoint first, the judged connection is the second one (both orders); 'statefulnosid' = stateful "
@@ -93,7 +113,10 @@ def run(tier, seed, replay):
     ]
     out = vlib.outdir(PID)
     wd = vlib.scratch("tlc-")
-    res = vlib.run_tlc("Negotiate", "Negotiate.cfg", workdir=wd, workers=1, timeout=300, heap_gb=2)
+    # quick: NegotiateDefs!CoreCaseSet (every value of every dimension, the peer-answer dimensions crossed with each
+    # other and with every request and transport); thorough: the whole product (FullCaseSet)
+    cfg = "Negotiate.cfg" if tier == "quick" else "Negotiate_full.cfg"
+    res = vlib.run_tlc("Negotiate", cfg, workdir=wd, workers=1, timeout=300, heap_gb=2)
     vlib.tlc_must_pass(res, "Negotiate")
     if not res.ok:
         raise vlib.MachineryError("Negotiate design evaluation failed: " + (res.violation or res.stdout[-2000:]))
@@ -120,7 +143,7 @@ def run(tier, seed, replay):
             os.remove(f)
     # rep 0 is the plain setup; further reps (thorough) vary tool sets, unknown strings and the client's handlers
     reps = 1 if tier == "quick" else 4
-    rc, gout, wall = vlib.go_test("mcp", "^TestVerif_C07$", ["mcp/c07_negotiate_test.go"], timeout=600,
+    rc, gout, wall = vlib.go_test("mcp", "^TestVerif_C07$", ["mcp/c07_negotiate_test.go"], timeout=600 if tier == "quick" else 1500,
                                   env={"VERIF_IN": cases, "VERIF_OUT": obs, "VERIF_SEED": seed, "VERIF_REPS": reps,
                                        "VERIF_TIER": tier})
     vlib.go_must_build(rc, gout, PID)
@@ -147,10 +170,13 @@ def run(tier, seed, replay):
     v.cov["evaluations"] = len(rows)
     v.cov["distinct_nontrivial"] = len({case_key(r["c"]) for r in rows
                                         if r["o"]["nDisc"] > 0 or r["o"]["version"] != r["reqstr"]})
-    v.cov["rule"] = ("complete matrix enumerated by TLC (NegotiateDefs!CaseSet), every cell connected on the real SDK; "
+    v.cov["rule"] = ("matrix enumerated by TLC (NegotiateDefs!%s), every cell connected on the real SDK; " % (
+                         "CoreCaseSet" if tier == "quick" else "FullCaseSet") +
                      "non-trivial = a discover round happened or the negotiated version differs from the requested string")
     v.cov["exhaustive"] = not replay
     v.cov["cells"] = ncases
+    v.cov["cells_of_full_matrix"] = info.get("fullMatrix")
+    v.cov["case_set"] = "NegotiateDefs!" + ("CoreCaseSet" if tier == "quick" else "FullCaseSet")
     v.cov["sessions"] = sum(1 for r in rows if r["o"]["kind"] == "session")
     v.cov["modern_sessions"] = sum(1 for r in rows if r["o"]["version"] in MODERN)
     v.cov["fallbacks_after_discover"] = sum(1 for r in rows if r["o"]["nDisc"] > 0 and r["o"]["sentInit"])
@@ -161,6 +187,16 @@ def run(tier, seed, replay):
         if r["c"].get("prior", "none") != "none":
             k += "+prior=" + r["c"]["prior"]
         v.cov["by_transport"][k] = v.cov["by_transport"].get(k, 0) + 1
+    v.cov["by_discover_shape"] = {}
+    v.cov["by_initialize_answer"] = {}
+    for r in rows:
+        d = r["c"]["disc"] + ("(%s)" % r["c"]["dbody"] if r["c"].get("dbody", "none") != "none" else "")
+        v.cov["by_discover_shape"][d] = v.cov["by_discover_shape"].get(d, 0) + 1
+        a = r["c"].get("ians", "honest")
+        v.cov["by_initialize_answer"][a] = v.cov["by_initialize_answer"].get(a, 0) + 1
+    v.cov["discover_posts_answered_by_http_front"] = sum(r["o"].get("fronted", 0) for r in rows)
+    v.cov["connects_refused_for_unsupported_initialize_answer"] = sum(
+        1 for r in rows if r["o"]["kind"] == "error" and r["o"]["sentInit"] and r["c"].get("ians", "honest") != "honest")
     v.cov["http_route"] = "in-process RoundTripper + testing/synctest (no httptest server)"
     for r in rows[:: max(1, len(rows) // 6)][:6]:
         v.sample({"cell": cell_of(r), "got": got_of(r), "methods": r["o"]["methods"], "listOK": r["o"]["listOK"],
@@ -168,7 +204,16 @@ def run(tier, seed, replay):
     failed_cases = set()
     # most telling representative first (it becomes the replay file of its signature): a known requested
     # version against a non-empty advertised subset
-    fails.sort(key=lambda f: (len(rows[f["line"] - 1]["c"]["adv"]) == 0, rows[f["line"] - 1]["c"]["req"] not in V, f["line"]))
+    # and the plainest peer that shows it (honest initialize answer, text body)
+    def _rank(f):
+        c = rows[f["line"] - 1]["c"]
+        return (len(c["adv"]) == 0, c["req"] not in V and c["req"] != "default", c.get("ians", "honest") != "honest",
+                c.get("dbody", "none") not in ("none", "text"), c["json"] or c["store"], f["line"])
+    fails.sort(key=_rank)
+    # a modern version on a legacy-only transport breaks Sound as well (the transport does not support it): the
+    # specific clause names the row
+    nomodern = {f["line"] for f in fails if f["monfail"] == "NoModernOverLegacyTransport"}
+    fails = [f for f in fails if not (f["monfail"] == "Sound" and f["line"] in nomodern)]
     for f in fails:
         e = rows[f["line"] - 1]
         if f["monfail"] == "drift":
@@ -177,8 +222,10 @@ def run(tier, seed, replay):
         else:
             failed_cases.add(case_key(e["c"]))
             v.violation(sig_of(f["monfail"], e),
-                        "real client/server pair violates %s in %s: got %s (requested %r, methods %s) %s" % (
-                            f["monfail"], cell_of(e), got_of(e), e["reqstr"], ",".join(e["o"]["methods"]), e["o"]["err"][:200]),
+                        "real client/server pair violates %s in %s: got %s (requested %r%s, client issued %s, on the wire %s) %s" % (
+                            f["monfail"], cell_of(e), got_of(e), e["reqstr"],
+                            ", peer answers initialize with %r" % e["ansstr"] if e.get("ansstr") else "",
+                            ",".join(e["o"]["methods"]), ",".join(e["o"].get("wire", [])) or "-", e["o"]["err"][:200]),
                         e)
     # leads of the model (cells where the code-shaped Expected breaks the property): reproduced on the real code or not
     if not replay:
